@@ -589,7 +589,10 @@ func (s *scripted) DescribeKey(ctx context.Context, req *pf.DescribeKeyRequest) 
 			resp.KeyID = wrongID(req.KeyID, e.N)
 		}
 		if e, ok := s.edit("keyspec-unknown"); ok {
-			resp.KeySpec = pf.KeySpec([]string{"EC-255", "", strings.ToLower(s.c.KeySpec), "RSA-1024", "ED25519", s.c.KeySpec + " ", "EC-512"}[e.N%7])
+			typ, size, _ := strings.Cut(s.c.KeySpec, "-")
+			// besides unknown specs, other spellings of the right one (a key spec is one of six fixed names)
+			resp.KeySpec = pf.KeySpec([]string{"EC-255", "", strings.ToLower(s.c.KeySpec), "RSA-1024", "ED25519", s.c.KeySpec + " ", "EC-512",
+				typ + "-0" + size, typ + "-+" + size, typ + "- " + size, typ + "-" + size + ".0", typ + "_" + size, typ + size, typ + "-0x" + size, " " + s.c.KeySpec}[e.N%15])
 		}
 		if e, ok := s.edit("keyspec-mismatch"); ok {
 			var others []string
